@@ -75,9 +75,9 @@ func (p *Prop) caseBudget(tier string) time.Duration {
 		return p.CaseBudget(tier)
 	}
 	if tier == "thorough" {
-		return 300 * time.Second
+		return 600 * time.Second
 	}
-	return 45 * time.Second
+	return 120 * time.Second // (the slowest quick case takes about 10 s on an idle machine; a loaded one must not trip this)
 }
 
 // RunInfo is what Post sees.
